@@ -1812,9 +1812,10 @@ class _Date(Vector):
 			# Raise mismatched lengths
 			if len(self) != len(other):
 				raise ValueError(f"Length mismatch: {len(self)} != {len(other)}")
-			if other.schema().kind == str:
+			# (an empty vector that was never typed has no schema: it takes the general path below)
+			if other.schema() is not None and other.schema().kind == str:
 				return Vector(tuple(False if (x is None or y is None) else bool(op(x, date.fromisoformat(y))) for x, y in zip(self, other, strict=True)), dtype=DataType(bool))
-			if other.schema().kind == datetime:
+			if other.schema() is not None and other.schema().kind == datetime:
 				return Vector(tuple(False if (x is None or y is None) else bool(op(datetime.combine(x, datetime.min.time()), y)) for x, y in zip(self, other, strict=True)), dtype=DataType(bool))
 		elif isinstance(other, Iterable) and not isinstance(other, (str, bytes, bytearray)):
 			# Raise mismatched lengths
@@ -1878,7 +1879,7 @@ class _Date(Vector):
 			# Promoted in place (date -> datetime): the elements are datetimes now; the day
 			# arithmetic below would drop their time of day. Same answer as a datetime vector.
 			return super().__add__(other)
-		if isinstance(other, Vector) and other.schema().kind == int:
+		if isinstance(other, Vector) and other.schema() is not None and other.schema().kind == int:
 			if len(self) != len(other):
 				raise ValueError(f"Length mismatch: {len(self)} != {len(other)}")
 			return Vector(tuple(
